@@ -92,7 +92,7 @@ Checks(e) ==
     [] e[1] = "ok" ->
         [Complete |-> st.cnt = Tr.n,
          \* the deprecated functions exist for every format with n_frac (+ sign bit) <= n_bits
-         DeprecatedVariantAvailable |-> (Fmt.f + Tr.fmt[1] <= Fmt.n) => Tr.fix = 1]
+         DeprecatedVariantAvailable |-> (Fmt.f >= 0 /\ Fmt.f + Tr.fmt[1] <= Fmt.n) => Tr.fix = 1]
     [] OTHER -> [UnknownEvent |-> FALSE]
 
 Apply(e) ==
